@@ -4,16 +4,21 @@ package interp
 // and contract stubs for callees the interpreter cannot execute.
 
 import (
+	"encoding/json"
 	"fmt"
 	"go/types"
 	"math"
 	"math/big"
+	"os"
+	"sort"
 	"strings"
 
 	"golang.org/x/tools/go/ssa"
 
 	"gsx/smt"
 )
+
+var universeError = types.Universe.Lookup("error").Type().Underlying().(*types.Interface)
 
 type intrinsic func(fr *frame, args []value) value
 
@@ -151,6 +156,9 @@ func init() {
 		b := i.term(args[2])
 		return i.mkval(c.And(c.Lt(c.Neg(b), p), c.Lt(p, b)), types.Bool)
 	}
+	intrinsics[v+"SchemaPattern"] = func(fr *frame, args []value) value {
+		return schemaPattern(args[0].(string))
+	}
 	intrinsics["math.Round"] = func(fr *frame, args []value) value {
 		if f, ok := args[0].(float64); ok {
 			return math.Round(f)
@@ -220,11 +228,106 @@ func init() {
 		return false
 	}
 
+	// strconv.formatBits(dst, u, base, neg, append_) for symbolic u in base 10: digits by Euclid witnesses
+	intrinsics["strconv.formatBits"] = func(fr *frame, args []value) value {
+		i := fr.i
+		us, usym := args[1].(sym)
+		ns, nsym := args[3].(sym)
+		if !usym && !nsym {
+			return notHandled{}
+		}
+		if b, ok := args[2].(int); !ok || b != 10 {
+			return notHandled{}
+		}
+		c := i.run.ctx
+		neg := false
+		if nsym {
+			neg = i.branch(ns.t)
+		} else {
+			neg = args[3].(bool)
+		}
+		var u *smt.Term
+		if usym {
+			u = us.t
+		} else {
+			u = i.term(args[1])
+		}
+		if neg {
+			// u = -u on uint64
+			u = i.wrap(c.Neg(u), types.Uint64)
+		}
+		// number of digits
+		n := 1
+		for ; n < 20; n++ {
+			if i.branch(c.Lt(u, c.Int(new(big.Int).Exp(big.NewInt(10), big.NewInt(int64(n)), nil)))) {
+				break
+			}
+		}
+		qs := make([]*smt.Term, n+1)
+		qs[0] = u
+		qs[n] = c.Int64(0)
+		for k := 1; k < n; k++ {
+			q, _ := i.euclid(u, c.Int(new(big.Int).Exp(big.NewInt(10), big.NewInt(int64(k)), nil)))
+			qs[k] = q
+		}
+		var out []value
+		if neg {
+			out = append(out, uint8('-'))
+		}
+		for k := n - 1; k >= 0; k-- {
+			d := c.Sub(qs[k], c.Mul(c.Int64(10), qs[k+1]))
+			var b *smt.Term
+			if dv, ok := d.ConstInt(); ok {
+				b = c.Int(new(big.Int).Add(dv, big.NewInt('0')))
+			} else {
+				b = i.rangeVar(c.Add(d, c.Int64('0')), big.NewInt('0'), big.NewInt('9'))
+			}
+			out = append(out, i.mkval(b, types.Uint8))
+		}
+		if args[4].(bool) {
+			dst := args[0].([]value)
+			i.logAppend(dst, len(out))
+			return tuple{append(dst, out...), ""}
+		}
+		return tuple{[]value(nil), normStr(out)}
+	}
+
+	// public strconv formatters with a symbolic argument go straight to the digit model
+	symFmt := func(fr *frame, u value, signed bool) value {
+		neg := value(false)
+		if signed {
+			c := fr.i.run.ctx
+			us := u.(sym)
+			neg = fr.i.mkval(c.Lt(us.t, c.Int64(0)), types.Bool)
+			u = fr.i.mkval(fr.i.toUnsigned(us.t, types.Int64), types.Uint64)
+		}
+		res := intrinsics["strconv.formatBits"](fr, []value{[]value(nil), u, 10, neg, false})
+		return res.(tuple)[1]
+	}
+	intrinsics["strconv.FormatInt"] = func(fr *frame, args []value) value {
+		if b, ok := args[1].(int); !ok || b != 10 || !isSym(args[0]) {
+			return notHandled{}
+		}
+		return symFmt(fr, args[0], true)
+	}
+	intrinsics["strconv.FormatUint"] = func(fr *frame, args []value) value {
+		if b, ok := args[1].(int); !ok || b != 10 || !isSym(args[0]) {
+			return notHandled{}
+		}
+		return symFmt(fr, args[0], false)
+	}
+	intrinsics["strconv.Itoa"] = func(fr *frame, args []value) value {
+		if !isSym(args[0]) {
+			return notHandled{}
+		}
+		return symFmt(fr, args[0], true)
+	}
+
 	// errors / fmt: opaque error objects
 	intrinsics["fmt.Errorf"] = func(fr *frame, args []value) value {
 		var wrapped value = iface{}
 		for _, a := range args[1].([]value) {
-			if ia, ok := a.(iface); ok && ia.t != nil && types.Implements(ia.t, errorType.Underlying().(*types.Interface)) {
+			if ia, ok := a.(iface); ok && ia.t != nil && types.Implements(ia.t, universeError) {
 				wrapped = ia
 				break
 			}
@@ -368,3 +471,41 @@ type NativeCtx struct{}
 func nativeFallbackOK(name string) bool { return false }
 
 func (i *interpreter) nativeCall(fn *ssa.Function, args []value) (value, bool) { return nil, false }
+
+func schemaPattern(rel string) string {
+	data, err := os.ReadFile("/repo/data/schemas/" + rel)
+	if err != nil {
+		return "<unreadable " + rel + ">"
+	}
+	var doc interface{}
+	if json.Unmarshal(data, &doc) != nil {
+		return "<bad json>"
+	}
+	return findPattern(doc)
+}
+
+func findPattern(v interface{}) string {
+	switch x := v.(type) {
+	case map[string]interface{}:
+		if p, ok := x["pattern"].(string); ok {
+			return p
+		}
+		keys := make([]string, 0, len(x))
+		for k := range x {
+			keys = append(keys, k)
+		}
+		sort.Strings(keys)
+		for _, k := range keys {
+			if p := findPattern(x[k]); p != "" {
+				return p
+			}
+		}
+	case []interface{}:
+		for _, e := range x {
+			if p := findPattern(e); p != "" {
+				return p
+			}
+		}
+	}
+	return ""
+}
